@@ -19,7 +19,12 @@ pub trait RenameExt {
 impl RenameExt for String {
     fn to_camel_case(&self) -> String {
         let pascal = self.to_pascal_case();
-        pascal[..1].to_ascii_lowercase() + &pascal[1..]
+        // The identifier may be empty after removing underscores (`__`) or start with a
+        // non-ASCII character, so do not slice at a fixed byte offset.
+        match pascal.chars().next() {
+            Some(first) => first.to_ascii_lowercase().to_string() + &pascal[first.len_utf8()..],
+            None => pascal,
+        }
     }
 
     fn to_pascal_case(&self) -> String {
